@@ -25,12 +25,16 @@ PROPS = {
                      "(asynchronous consumers are covered by the async engines)."),
 }
 
-PROPS["C14"] = dict(engines=["alatest"], design="5/C14",
+PROPS["C14"] = dict(engines=["alatest", "alatestthr"], design="5/C14",
     technique="TLA+ spec AsyncLatest (TLC exhaustive incl. liveness, legacy algorithm refuted as sensitivity check) + trace validation of the real latest node under enumerated schedules on a virtual-time loop",
     text="AsyncLatest.tla models update/notify/cb with every notify a separately scheduled step; TLC checks Subsequence, NewestDelivered "
          "(state form) and NewestEventually (liveness under weak fairness) for all interleavings of <= 5 arrivals with a slow consumer; "
-         "about a thousand schedules of the real node (Future / coroutine / synchronous consumers) are validated event by event against it.",
-    note="Trusted: TLC; virtual-time loop (harness/vloop.py); RunNotify/CbWait are silent steps inferred by TLC; one producer.")
+         "about a thousand schedules of the real node (Future / coroutine / synchronous consumers) are validated event by event against it.  "
+         "Threaded operation: ThreadLatest.tla models the wake-up protocol between a pushing thread and the loop thread (NoLostWakeup, "
+         "NewestDelivered under fairness; a notify from the pushing thread is refuted); real runs with the loop in streamz' background "
+         "thread and pushes by emit(x, asynchronous=True) from another thread are validated against it.",
+    note="Trusted: TLC; virtual-time loop (harness/vloop.py); RunNotify/CbWait are silent steps inferred by TLC; one producer; threaded runs: "
+         "event-gated waits, 'never comes out' = not within 4 s of an idle machine's loop thread.")
 PROPS["C13"] = dict(engines=["arate", "abuffer"], design="5/C13",
     technique="TLA+ spec AsyncRateLimit (TLC exhaustive over arrival-time patterns) + trace validation of the real rate_limit/delay nodes with virtual timestamps",
     text="AsyncRateLimit.tla models the reservation taken before sleeping and deadline-ordered timers on an integer clock; TLC checks "
